@@ -117,7 +117,7 @@ def plan(tier):
     shards.append({"kind": "badrefs"})
     shards.append({"kind": "file-twins"})
     shards.append({"kind": "scale"})
-    shards += H.plan_shards(['nested-revisions', 'shared-arguments'])
+    shards += H.plan_shards(['nested-revisions', 'shared-arguments', 'wide-revisions'])
     return shards
 
 
